@@ -41,34 +41,15 @@ pub fn check_text(src: &str, rl: Option<usize>, ctx: &mut Ctx) -> Outcome {
         let div = src.bytes().zip(got.bytes()).position(|(a, b)| a != b).unwrap_or(src.len().min(got.len()));
         // "expected a type" is also reported by a site that keeps the token (grammar/field.rs), so
         // look for the subset of reported tokens whose removal reproduces the tree text.
-        if !ranges.is_empty() && ranges.len() <= 12 {
-            for mask in 1u32..(1u32 << ranges.len()) {
-                let mut minus = String::new();
-                let mut at = 0usize;
-                let mut ok = true;
-                for (i, (a, b)) in ranges.iter().enumerate() {
-                    if mask & (1 << i) != 0 {
-                        if *a < at {
-                            ok = false;
-                            break;
-                        }
-                        minus.push_str(&src[at..*a]);
-                        at = *b;
-                    }
-                }
-                if !ok {
-                    continue;
-                }
-                minus.push_str(&src[at..]);
-                if &minus == got {
-                    return Outcome::fail(
-                        "C02|dropped-token|type-parser-pops-offending-token",
-                        format!(
-                            "tree text lacks exactly {} token(s) reported as 'expected (item) type' (first loss near byte {}): input {:?} tree {:?}",
-                            mask.count_ones(), div, src, got
-                        ),
-                    );
-                }
+        if !ranges.is_empty() && ranges.len() <= 4000 {
+            if let Some(n) = dropped_subset(src, got, &ranges) {
+                return Outcome::fail(
+                    "C02|dropped-token|type-parser-pops-offending-token",
+                    format!(
+                        "tree text lacks exactly {} token(s) reported as 'expected (item) type' (first loss near byte {}): input {:?} tree {:?}",
+                        n, div, src, got
+                    ),
+                );
             }
         }
         // After a limit error the parser suppresses further errors, so the same root cause is
@@ -127,6 +108,47 @@ pub fn check_text(src: &str, rl: Option<usize>, ctx: &mut Ctx) -> Outcome {
         return Outcome::fail("C02|ranges", format!("{} for input {:?}", pb, src));
     }
     Outcome::Pass
+}
+
+/// Is `got` exactly `src` without some of the (sorted, non-overlapping after filtering) `ranges`?
+/// Returns how many ranges were dropped. Memoised search over (range index, position in `got`).
+fn dropped_subset(src: &str, got: &str, ranges: &[(usize, usize)]) -> Option<u32> {
+    fn go(k: usize, at_src: usize, at_got: usize, src: &[u8], got: &[u8], ranges: &[(usize, usize)], dead: &mut std::collections::HashSet<(usize, usize)>) -> Option<u32> {
+        if k == ranges.len() {
+            return (src[at_src..] == got[at_got.min(got.len())..]).then_some(0);
+        }
+        if dead.contains(&(k, at_got)) {
+            return None;
+        }
+        let (a, b) = ranges[k];
+        if a < at_src {
+            return go(k + 1, at_src, at_got, src, got, ranges, dead);
+        }
+        let seg = &src[at_src..a];
+        if at_got + seg.len() > got.len() || &got[at_got..at_got + seg.len()] != seg {
+            dead.insert((k, at_got));
+            return None;
+        }
+        let ng = at_got + seg.len();
+        // dropped
+        if let Some(n) = go(k + 1, b, ng, src, got, ranges, dead) {
+            return Some(n + 1);
+        }
+        // kept
+        let tok = &src[a..b];
+        if ng + tok.len() <= got.len() && &got[ng..ng + tok.len()] == tok {
+            if let Some(n) = go(k + 1, b, ng + tok.len(), src, got, ranges, dead) {
+                return Some(n);
+            }
+        }
+        dead.insert((k, at_got));
+        None
+    }
+    let mut dead = std::collections::HashSet::new();
+    match go(0, 0, 0, src.as_bytes(), got.as_bytes(), ranges, &mut dead) {
+        Some(n) if n > 0 => Some(n),
+        _ => None,
+    }
 }
 
 fn check_text_default(src: &str, ctx: &mut Ctx) -> Outcome {
